@@ -112,7 +112,9 @@ func coerceInt(value interface{}) interface{} {
 		}
 		return coerceInt(*value)
 	case float32:
-		if value < float32(math.MinInt32) || value > float32(math.MaxInt32) {
+		// compare as float64: float32(math.MaxInt32) rounds up to 2^31, which
+		// would let 2147483648 through
+		if float64(value) < float64(math.MinInt32) || float64(value) > float64(math.MaxInt32) {
 			return nil
 		}
 		return int(value)
